@@ -49,6 +49,7 @@ def run(ctx):
         if ctx['tier'] == 'quick' and len(offs) > 30: offs = sorted(rnd.sample(offs, 30))
         for w in offs:
             wc = mkcase('W%s_%d' % (c['id'], w), cfg, data); wc['out_room'] = w
+            wc['out_fail_kind'] = rnd.choice(['other', 'brokenpipe', 'brokenpipe', 'wouldblock', 'storagefull', 'connectionreset'])      # every kind of failed write fails the run
             wcases.append(wc); meta[wc['id']] = ('write', cfg, data, w)
     impl2, model2, mism2 = common.correspond(wcases, proj)
     mism += mism2; impl.update(impl2)
@@ -126,6 +127,6 @@ def replay(ctx, r):
         c['inputs'][0]['fail_at'] = r['offset']
         if r.get('fail_kind'): c['inputs'][0]['fail_kind'] = r['fail_kind']
         c['inputs'][0]['fail_once'] = True      # the stricter of the two deliveries
-    else: c['out_room'] = r['offset']
+    else: c['out_room'] = r['offset']; c['out_fail_kind'] = 'brokenpipe'
     a = lib.run_harness([c])['r']
     return {'observed': {'result': a['result'], 'stdout': a['stdout'].decode('utf8', 'replace')[:300]}, 'expected': r.get('expected'), 'fails': a['result'] != 'err:io'}
